@@ -49,8 +49,9 @@ def check(prop, tier, runs_override=None):
     tmpdir = runner.worker_tmp()
     # determinism spot check on every run of the check: re-execute a sample in this process
     sample = [r for r in results if r["index"] % 37 == 0][:24]
+    runner.preload(eng, tier)
     for r in sample:
-        again = eng.run_index(seed, tier, r["index"], tmpdir)
+        again = runner.isolated(eng.run_index, seed, tier, r["index"], tmpdir)
         if again["digest"] != r["digest"]:
             return harness_error("non-deterministic run: property=%s seed=%d run=%d digests %s vs %s"
                                  % (prop, seed, r["index"], r["digest"][:16], again["digest"][:16]))
@@ -114,8 +115,9 @@ def digests(prop, tier, seed, n):
     logging.disable(logging.CRITICAL)
     eng = runner.get_engine(prop)
     out = []
+    runner.preload(eng, tier)
     for i in range(n):
-        out.append(eng.run_index(seed, tier, i, runner.worker_tmp())["digest"])
+        out.append(runner.isolated(eng.run_index, seed, tier, i, runner.worker_tmp())["digest"])
     return out
 
 
